@@ -30,6 +30,50 @@ class Monitor:
         self.res.violation(sig, msg, wit)
 
 
+def prelude(w, d, rng, res):
+    """short scripted sequences at the start of every history: combinations that a random walk over single operations
+    meets too rarely (a refused or repeated request directly before a collection is deleted and made again; the same
+    name coming back after an overwrite).  Everything goes through the World, so every monitor sees and audits it."""
+    from . import gen
+    k = rng.randrange(4)
+    col = "/user/calendars/pre%d/" % k
+    w.mkcol(col, "calendar")
+    if col not in w.cols:
+        return
+    w.full_audit([col])
+    uid = d.uids[k % len(d.uids)]
+    t = [w.new_token() for _ in range(4)]
+    w.put(col, "a.ics", gen.ical(rng, uid, t[0], rich=False), op="put_new", uid=uid, token=t[0])
+    w.full_audit([col])
+    if k % 2 == 0:
+        # the last request before the collection goes away is one the server refuses ...
+        w.put(col, "c.ics", gen.ical(rng, uid, t[1], rich=False), op="put_uidconflict", uid=uid, token=t[1])
+    else:
+        # ... or one that changes nothing
+        m = w.cols[col].members.get("a.ics")
+        if m is not None:
+            w.put(col, "a.ics", m.served or m.uploaded, op="put_same", uid=uid, token=t[0])
+    w.full_audit([col])
+    w.delete(col, None)
+    w.mkcol(col, "calendar", how=rng.choice(["auto", "mkcol-ext"]))
+    if col in w.cols:
+        w.full_audit([col, "/user/calendars/"])
+        w.put(col, "c.ics", gen.ical(rng, uid, t[2], rich=False), op="put_new", uid=uid, token=t[2])
+        w.full_audit([col])
+        if k >= 2:
+            w.put(col, "a.ics", gen.ical(rng, d.uids[(k + 1) % len(d.uids)], t[3], rich=False), op="put_new", uid=d.uids[(k + 1) % len(d.uids)], token=t[3])
+            w.full_audit([col])
+    if col in w.cols:
+        # a member whose extension is written in capitals is a calendar object like any other
+        u2 = d.uids[(k + 2) % len(d.uids)]
+        t5, t6 = w.new_token(), w.new_token()
+        w.put(col, "UPPER.ICS", gen.ical(rng, u2, t5, rich=False), op="put_new", ctype="text/calendar", uid=u2, token=t5)
+        w.full_audit([col])
+        w.put(col, "lower.ics", gen.ical(rng, u2, t6, rich=False), op="put_uidconflict", uid=u2, token=t6)
+        w.full_audit([col])
+    res.count("scripted_preludes")
+
+
 def run_history(args, monitor_classes, res, weights=None, driver_kw=None, setup=None):
     """args: {fe, prefix, seed, steps, histories, bare(bool), ...}"""
     seed = args["seed"]
@@ -71,6 +115,7 @@ def run_history(args, monitor_classes, res, weights=None, driver_kw=None, setup=
             if random.Random(hseed + 9).random() < 0.6:
                 w.proppatch("/user/calendars/pl0/", sets=[(X.P_DISPLAYNAME, "plain with settings")])
             d.coln = 1
+            prelude(w, d, rng, res)
             if setup:
                 setup(w, d, rng)
             w.full_audit(None)
